@@ -237,7 +237,9 @@ func (s *clusterSvc) BlockAllocate(ctx context.Context, in *api.Pin, out *[]peer
 		}
 	}
 	w.allocs = append(w.allocs, ps)
-	*out = ps
+	// (a local gorpc call hands the reply over by reference: give the adder its
+	// own copy, so that the recorded allocation is what was answered)
+	*out = append([]peer.ID{}, ps...)
 	return nil
 }
 
@@ -624,6 +626,7 @@ func (w *world) judge(params *api.AddParams, tree *FileSpec, root cid.Cid, err e
 		if p.Name != params.Name || p.ReplicationFactorMin != params.ReplicationFactorMin || p.ReplicationFactorMax != params.ReplicationFactorMax || p.Metadata["k"] != "v" || p.Mode != api.PinModeRecursive {
 			run.Violate("C13/pin_options_differ", "", "root pinned with name=%q rf=%d/%d meta=%v mode=%d; requested name=%q rf=%d/%d", p.Name, p.ReplicationFactorMin, p.ReplicationFactorMax, p.Metadata, p.Mode, params.Name, params.ReplicationFactorMin, params.ReplicationFactorMax)
 		}
+		// (with a negative factor adder.Pin clears the allocations: pinned everywhere)
 		if len(w.allocs) >= 1 && params.ReplicationFactorMin > 0 {
 			if peersKey(p.Allocations) != peersKey(w.allocs[0]) {
 				run.Violate("C13/pin_allocations_differ", "", "blocks were sent to %v but the root is pinned with allocations %v", idx(w.allocs[0]), idx(p.Allocations))
@@ -660,8 +663,12 @@ func (w *world) judge(params *api.AddParams, tree *FileSpec, root cid.Cid, err e
 		return
 	}
 	shardSet := map[string]*api.Pin{}
-	for _, sp := range shards {
+	shardOrder := map[string]int{}
+	for i, sp := range shards {
 		shardSet[sp.Cid.String()] = sp
+		if _, dup := shardOrder[sp.Cid.String()]; !dup {
+			shardOrder[sp.Cid.String()] = i
+		}
 	}
 	if len(cnd.Links()) != len(shards) {
 		run.Violate("C13/wrong_pins", "shards", "the cluster-DAG links %d shards, %d shard entries were pinned", len(cnd.Links()), len(shards))
@@ -672,6 +679,14 @@ func (w *world) judge(params *api.AddParams, tree *FileSpec, root cid.Cid, err e
 		if sp == nil {
 			run.Violate("C13/wrong_pins", "shards", "cluster-DAG links shard %s which was not pinned", l.Cid)
 			continue
+		}
+		// the shard is pinned with the allocations its blocks were sent to: one
+		// BlockAllocate answer per shard, in order
+		if si := shardOrder[l.Cid.String()]; si < len(w.allocs) && params.ReplicationFactorMin > 0 {
+			if peersKey(sp.Allocations) != peersKey(w.allocs[si]) {
+				run.Violate("C13/pin_allocations_differ", "shard", "the blocks of shard #%d were sent to %v but the shard is pinned with allocations %v", si, idx(w.allocs[si]), idx(sp.Allocations))
+			}
+			run.Probe("shard_allocations_checked")
 		}
 		// depth of the shard's link DAG and the blocks it covers
 		depth, leaves, size, derr := shardLeaves(ctx, union.dserv, l.Cid, seen)
